@@ -484,6 +484,10 @@ def c20_catalogue(quick):
     # a nofollow page written without the optional <html> tag, with prose that contains "var" / "function"
     bare = [U(1, links=[2, 3]), U(2, nofollow=1, bare=1, links=[4, dict(to=5, inline=1)]), U(3, bare=1, links=[6]), U(4), U(5), U(6)]
     out.append(scenario('robots-nofollow-page-without-html-tag', bare, dict(robots=1, pagereq=1), N=1, robots=rules))
+    # white space around the colon of a rule line
+    for name, sep in (('space-before-colon', ' : '), ('tab-around-colon', '\t:\t'), ('no-space', ':')):
+        out.append(scenario('robots-rules-' + name, [U(1, links=[2, 3]), U(2, disallowed=1), U(3)], dict(robots=1), N=1,
+                            robots={'a.test': {'kind': 'rules', 'sep': sep}}))
     # a site wholly behind HTTP authentication, its robots.txt included; the user gave the credentials
     ab = scenario('robots-behind-authentication', [U(1, links=[2, 3]), U(2, disallowed=1), U(3)], dict(robots=1, auth=1), N=1,
                   robots=rules, benign=0)
